@@ -30,7 +30,7 @@ CLAIMS = {
     },
     "C18": {
         "text": "De-duplication decided from path conditions (task creation dominated by `source address not in seen set`, address added on "
-                "every creating path, one create_task site, the result built from one gather over every recorded task, nothing removes - or hands out a remover of - recorded tasks); per-host containment decided by the may-raise analysis "
+                "every creating path, one create_task site, the result built from one gather over every recorded task, nothing removes - or hands out a remover of - recorded tasks; the reported ip is the source address on every path); per-host containment decided by the may-raise analysis "
                 "with the datagram as taint source (escape set of datagram_received and of the per-host coroutine is empty); no shared "
                 "per-host state (who-writes).",
         "note": TRUST + "library model; asyncio.gather re-raises the first task exception; interleavings need no exploration once hosts share no state",
@@ -39,7 +39,7 @@ CLAIMS = {
     "C15": {
         "text": "For every path through the capability record loop at once: the cursor advances by exactly 3+size on each back edge "
                 "(affine forms over value-flow terms), every read stays inside its record, the only loop-carried values are the cursor "
-                "and write-only accumulators (the result dict), merge is an in-order dict.update and get_capabilities pages/merges/updates in the "
+                "and write-only accumulators (the result dict), merge is an in-order dict.update (skipped at most when the other page is empty) and get_capabilities pages/merges/updates in the "
                 "right order; the dict a response fills is not shared with class-level or module-level state. Together: parse(list) = fold of parse(record), independent of the split point.",
         "note": TRUST + "dict.update semantics",
         "technique": "cursor-advance / loop-carried-state analysis on value-flow terms (static analysis)",
@@ -103,7 +103,7 @@ CLAIMS = {
                 "field a source over its full raw domain, don't-care bits free, symbolic length >= 16); in every guard region each of the 19 "
                 "attributes equals the reported field, optional fields are None exactly where the length does not cover them; "
                 "_parse_temperature's decision tree is checked leaf by leaf in a linear-form domain with the trunc relation (None iff "
-                "0xFF, within one degree, exact tenths in Celsius); _update_state stores every attribute on every way through its state branch and, with the getters, maps each attribute unchanged.",
+                "0xFF, within one degree, exact tenths in Celsius); _update_state stores every attribute on every way through its state branch, converts the custom fan speed inside a handler for the enum's ValueError and, with the getters, maps each attribute unchanged.",
         "note": TRUST + "vendor layout rows (Lua lines cited); exact rationals stand for floats of halves/tenths",
         "technique": "abstract interpretation in a bit-field/linear-form domain with trace partitioning + def-use mapping (static analysis)",
     },
@@ -122,14 +122,14 @@ CLAIMS = {
                 "bind it to the configured key; key/expiry are written only by __init__ and authenticate, the stored key is the verified "
                 "return value, no session attribute is stored between the reply read and the proof, every raising path leaves them untouched; LAN credential stores are reached only after a successful "
                 "handshake for every budget/outcome sequence (loop exploration); the only write is write(token, HANDSHAKE_REQUEST) after "
-                "the flush; reply-caused failures surface as AuthenticationError (may-raise analysis); expiry = now + 12 h.",
+                "the flush; reply-caused failures surface as AuthenticationError (may-raise analysis); expiry = now + 12 h; the premises of the V3 codec the reply travels through (C05) are imported.",
         "note": TRUST + "that both sides derive the same key (XOR/AES algebra) is trusted",
         "technique": "path-condition dominance + who-writes + retry-loop exploration + may-raise effects (static analysis)",
     },
     "C07": {
         "text": "Typestate decided as invariants each call re-establishes: the data write in LAN.send is dominated by not-V3 / authenticated "
                 "/ completed authenticate(); single data-write and handshake-write sites; key guard in the encoder; session state is "
-                "per-instance and the factory constructs a fresh protocol per connection; counter' = (counter+1) mod 2^k, k ≤ 16; "
+                "per-instance and the factory constructs a fresh protocol per connection; counter' = (counter+1) mod 2^k, k ≤ 16, serialised as 2 bytes big-endian by both V3 encoders (layout domain); "
                 "`authenticated` and `_alive` lifetime predicates have the right polarity and constants (12 h).",
         "note": TRUST + "wall-clock behaviour is not decided; histories need no enumeration because each clause is a per-call invariant",
         "technique": "must-pass-through typestate + who-may-call + value-flow/affine-mod reasoning (static analysis)",
@@ -167,7 +167,8 @@ CLAIMS = {
                 "the set is cleared after props was computed on every sending completion; PropertyId.encode/decode layouts match the vendor "
                 "value encodings (ids and lengths re-read from the Lua); the response parser advances 4+len per record; breeze exclusivity "
                 "and BREEZE_CONTROL precedence from the gated terms; response handlers store backing fields, never the recording setters; "
-                "BreezeMode members carry the vendor's values (bounds re-read from the Lua).",
+                "BreezeMode members carry the vendor's values (bounds re-read from the Lua); capability record id, reader name, response property and the PropertyId marked supported "
+                "agree along each of the 7 chains; the 5 property read-backs store whenever the property is present (not when truthy).",
         "note": TRUST + "vendor value encodings (Lua lines cited); read-back equality through a live device is not decided",
         "technique": "def-use chain + must/may event analysis + layout domain + cursor-advance analysis (static analysis)",
     },
